@@ -387,6 +387,7 @@ fn run_single_program(
                             process::exit(1);
                         }
                         libs::dup2(fd, 2);
+                        libs::close(fd);
                     } else {
                         // note: capture output with redirections does not
                         // make much sense
@@ -399,6 +400,7 @@ fn run_single_program(
                             process::exit(1);
                         }
                         libs::dup2(fd, 1);
+                        libs::close(fd);
                     } else {
                         // note: capture output with redirections does not
                         // make much sense
